@@ -170,5 +170,17 @@ META["C15"] = dict(
     assumptions=["distinct x; LOESS windows hold at least degree+3 points", "coefficient tolerance 256(n+p+2)*kappa*eps*scale"],
 )
 
+INTERVAL_PROOFS = []   # ["MV.Proofs.Interval"] once the soundness proofs match the fixed-point kernel again
 for _p in ["C03", "C09", "C11", "C14", "C16", "C17"]:
-    META[_p]["extra_modules"] = ["MV.Proofs.Interval"]
+    META[_p]["extra_modules"] = INTERVAL_PROOFS
+
+META["C12"] = dict(
+    level_text="Theorems (Lean, Epanechnikov and delta kernels, any positive weights and bandwidth): the kernel pdf is non-negative, the kernel cdf is non-decreasing from 0 to 1 and is the antiderivative of the pdf piecewise, so the unbounded estimate is a proper distribution with integral of PDF = difference of CDF; the reflection formulas for one and two boundaries. Correspondence: KDE.PDF/CDF of the real code against the model for three kernels and four boundary configurations (Gaussian through proved-sound interval enclosures of phi and Phi; reflected images summed until negligible), the lazily filled Bandwidth against Scott's rule, BandwidthScott/Silverman against interval formulas, and Bounds evaluated on the model CDF (finite, inside the boundaries, >= 98% of the mass); non-negativity, range and monotonicity checked on the code's outputs.",
+    level_note="Trusted: Lean kernel, harness sampling, interval enclosures (MV.I, soundness proved in MV/Proofs/Interval.lean). The `series` stopping rule and float summation are not modelled (rtol 1e-9 + 1e-12). Cases needing more than 6000 kernel evaluations per point in the exact model are skipped (counted). Delta-kernel atoms within 1e-9 relative of a Bounds end point count as inside.",
+    technique="Lean 4 proofs about kernels and reflection + differential correspondence with interval enclosures",
+    rule="kde xs ws kernel h bmin bmax queries: 1..40 values on a dyadic grid at several centres/scales, optional positive weights, kernels epan/gauss/delta, h from 0.02 to 50 spreads (0 = Scott's rule), boundaries none / lower / upper / both at distances {0, h, h/3, 5, 100 spreads}; ascending query grid incl. kernel support ends and the boundaries and their float neighbours. bw xs for the bandwidth rules. non-trivial = every case not skipped",
+    exhaustive_part="",
+    trusted_base=COMMON_TB + ["MV.I interval enclosures (exp, sqrt, pi, Phi), proved sound in MV/Proofs/Interval.lean"],
+    assumptions=["data inside the boundaries; positive weights; positive bandwidth (or 0 on unweighted samples with non-zero spread)"],
+    extra_modules=[],
+)
